@@ -158,6 +158,14 @@ def case_cazac(ctx, rng, idx):
             ctx.tally("cazac-skipped-wrong-Nzc")     # decided by the prime monitor
             continue
         tag = {"size": size, "u": u, "Nzc": N, "explicit_Nzc": explicit}
+        # indexing the sequence object is indexing its (extended) array
+        for ix in (0, -1, -int(rng.integers(1, seq.size + 1)), int(rng.integers(0, seq.size)),
+                   slice(-5, None), slice(None, None, 7)):
+            okc, got = ctx.call("cyclic-extension", r.__getitem__, ix, cls="indexing-raised",
+                                detail={**tag, "index": repr(ix)})
+            if okc:
+                ctx.ev("cyclic-extension", np.array_equal(np.asarray(got), seq[ix]),
+                       cls="indexing", detail={**tag, "index": repr(ix)})
         cazac_checks(ctx, seq[:N], N, u, tag)
         ctx.ev("cyclic-extension", np.array_equal(seq, seq[:N][np.arange(seq.size) % N]),
                cls="cazac", detail=tag)
@@ -166,6 +174,19 @@ def case_cazac(ctx, rng, idx):
     u = int(rng.integers(1, Nb))
     z = ZC.calcBaseZC(Nb, u)
     cazac_checks(ctx, np.asarray(z), Nb, u, {"Nzc": Nb, "u": u, "via": "calcBaseZC"})
+    # the general form with an integer offset q is a Zadoff-Chu sequence as well
+    q = int(rng.integers(1, 8))
+    okc, zq = ctx.call("unit-amplitude", ZC.calcBaseZC, Nb, u, q, cls="calcBaseZC(q)-raised",
+                       detail={"Nzc": Nb, "u": u, "q": q})
+    if okc:
+        zq = np.asarray(zq)
+        cazac_checks(ctx, zq, Nb, u, {"Nzc": Nb, "u": u, "q": q, "via": "calcBaseZC(q)"})
+        nn = np.arange(Nb)
+        ph = [(u * int(n) * (int(n) + 1 + 2 * q)) % (2 * Nb) for n in nn]      # exact integers
+        refq = np.exp(-1j * np.pi * np.array(ph, dtype=float) / Nb)
+        ctx.within("zc-formula", float(np.max(np.abs(zq - refq))),
+                   8 * EPS * math.pi * u * Nb * (1 + q) + 4 * EPS, "with-offset-q",
+                   {"Nzc": Nb, "u": u, "q": q})
     L = int(rng.integers(Nb, 6 * Nb))
     okc, ext = ctx.call("cyclic-extension", ZC.get_extended_ZF, z, L, detail={"Nzc": Nb, "L": L})
     if okc:
@@ -204,11 +225,23 @@ def case_shift_orth(ctx, rng, idx):
         size = 48
     u = int(rng.integers(1, 30)) if size in (12, 24) else \
         int(rng.integers(1, largest_prime_leq(size)))
+    normalize = bool(rng.integers(0, 2))
+    if size > 36 and rng.random() < 0.4:
+        # earlier in the same process: users of a root with the same index and
+        # size but another (explicit) base length; they must not leak into the
+        # users created below
+        smaller = largest_prime_leq(largest_prime_leq(size) - 1)
+        if u < smaller:
+            okc, other = ctx.call("shift-orthogonality", RS.RootSequence, u, size, smaller,
+                                  detail={"size": size, "u": u, "Nzc": smaller})
+            if okc:
+                for n_cs in range(nshift):
+                    ctx.call("shift-orthogonality", make_ue, kind, other, n_cs, normalize,
+                             detail={"kind": kind, "n_cs": n_cs, "size": size, "Nzc": smaller})
     okc, root = ctx.call("shift-orthogonality", RS.RootSequence, u, size,
                          detail={"size": size, "u": u})
     if not okc:
         return
-    normalize = bool(rng.integers(0, 2))
     seqs = []
     for n_cs in range(nshift):
         okc, ue = ctx.call("shift-orthogonality", make_ue, kind, root, n_cs, normalize,
